@@ -20,7 +20,7 @@ RULE = (
 )
 ASSUMPTIONS = [
     "trades flagged pending_orders are outside (as the property says); every created order is submitted to place_order",
-    "live-exchange histories are exercised on the live double (C11/C12)",
+    "live world: the C11 schedule generator on the live double (incl. adoption after restart) with the same recount after every operation",
 ]
 CHECKS = ("trades",)
 
@@ -33,10 +33,64 @@ def sub_machine(col, budget, seed, tier, shard, nshards):
     M.run(col, World, CHECKS, M.base_cfg(limits="some"), budget, 30 if tier == "quick" else 60, seed, tier, "trades")
 
 
+# ---- live world: the same recount after every operation of a generated live schedule (C11 generator) -----------
+
+
+def live_invariant(d, op):
+    from ..common import Violation
+
+    m = d.lab.market(0)
+    if m is None:
+        return
+    by = {}
+    for o in m.blotter:
+        by.setdefault((o.trade.strategy, o.lookup), []).append(o)
+    for (strat, lk), orders in by.items():
+        rc = strat._invested.get(lk)
+        if rc is None:
+            raise Violation("runner-context-missing", ("live",), "no runner context for %s" % (lk,), d.c)
+        trades = []
+        for o in orders:
+            if o.trade not in trades:
+                trades.append(o.trade)
+        exp_live = sorted(t.id for t in trades if any(not x.complete for x in t.orders if x.status is not None))
+        exp_all = sorted(t.id for t in trades)
+        if sorted(rc.trades) != exp_all:
+            raise Violation("trade-count-mismatch", ("live",), "runner context counts %d trades, %d distinct trades hold orders (after %s)" % (len(rc.trades), len(exp_all), op["op"]), d.c)
+        if sorted(rc.live_trades) != exp_live:
+            kindf = "charged-but-complete" if len(rc.live_trades) > len(exp_live) else "live-but-not-charged"
+            raise Violation("live-trade-mismatch", (kindf, "live"), "runner context live trades %d, trades with a live order %d after %s; trades: %s" % (
+                len(rc.live_trades), len(exp_live), op["op"], [(t.status.name, [x.status.name if x.status else None for x in t.orders]) for t in trades]), d.c)
+        for t in trades:
+            if t.status.name == "PENDING":
+                raise Violation("trade-left-pending", ("live",), "trade PENDING outside a response handler (after %s)" % op["op"], d.c)
+            done = all(x.complete for x in t.orders if x.status is not None)
+            if (t.status.name == "COMPLETE") != done:
+                raise Violation("trade-status-mismatch", (t.status.name, "all-complete" if done else "has-live-order", "live"),
+                                "trade %s with orders %s after %s" % (t.status.name, [x.status.name if x.status else None for x in t.orders], op["op"]), d.c)
+    d.classes.add("live-accounting-checked")
+
+
+def check_live(c):
+    from . import c11
+
+    return c11.check(c, after_op=live_invariant, convergence=False)
+
+
+def sub_live(col, budget, seed, tier, shard, nshards):
+    from ..common import run_given
+    from . import c11
+
+    run_given(col, c11.schedule(tier), check_live, budget, seed, tier, "live")
+
+
 def subchecks(tier):
     q = tier == "quick"
-    return [SubCheck("trades", sub_machine, 1600 if q else 40000)]
+    return [SubCheck("trades", sub_machine, 1600 if q else 40000), SubCheck("live", sub_live, 5000 if q else 200000)]
 
 
 def replay(case, sub=None):
-    replay_trace(World, CHECKS, case)
+    if isinstance(case, dict) and "ops" in case:
+        check_live(case)
+    else:
+        replay_trace(World, CHECKS, case)
